@@ -33,6 +33,7 @@ Section PipelineRefs.
     intros H. unfold build in H. destruct t as [docs|nm d ents]; [discriminate|].
     destruct (accumulate nonstr (PDir nm d ents)) as [m| | |] eqn:EA; cbn [bind] in H; try discriminate.
     destruct (mapM (hash_res nonstr) m) as [m1| | |] eqn:EH; cbn [bind] in H; try discriminate.
+    destruct (hash_check m1) as [[]| | |]; cbn [bind] in H; try discriminate.
     destruct pipe_rules as [rules| | |] eqn:ER; cbn [bind] in H; try discriminate.
     destruct (nameref_transform pipe_cs nonstr rules m1) as [m2| | |] eqn:EN; cbn [bind] in H; try discriminate.
     destruct (ignore_local m2) as [m2l| | |] eqn:EL; cbn [bind] in H; try discriminate.
